@@ -192,7 +192,8 @@ def main(tier):
 
     # ---- (3) executor wiring ------------------------------------------------------------------
     jr, rr = {A: r1}, {B: r3}
-    for job, res in itertools.product([None, jr], [None, rr]):
+    empty = {}
+    for job, res in itertools.product([None, jr, empty], [None, rr, empty]):
         n += 1
         ex = pe.ProcessPoolExecutor(max_workers=1, job_reducers=job, result_reducers=res)
         try:
@@ -261,6 +262,8 @@ def base_restore(red, base):
 def _nm(r):
     if r is None:
         return None
+    if not r:
+        return "{}"
     return sorted(k.__name__ for k in r)
 
 
